@@ -15,7 +15,7 @@ for id in $ids; do
   [ -f "$dir/patch.diff" ] || continue
   # (with .git: a patch made against an earlier commit is merged three-way onto the current tree)
   rm -rf "$W/mut"; rsync -a /repo/ "$W/mut/" || exit 2
-  (cd "$W/mut" && { git apply "$dir/patch.diff" 2>/dev/null || git update-index -q --refresh && git apply --3way "$dir/patch.diff" >/dev/null 2>&1; }) || { echo "$id: patch does not apply to the current tree"; bad=1; continue; }
+  (cd "$W/mut" && { git apply "$dir/patch.diff" 2>/dev/null || { git update-index -q --refresh; git apply --3way "$dir/patch.diff" >/dev/null 2>&1; }; }) || { echo "$id: patch does not apply to the current tree"; bad=1; continue; }
   rm -rf "$W/mut/.git"
   if [ $want = 1 ]; then props=$(python3 -c "import json;print(json.load(open('$dir/meta.json'))['breaks_property'])")
   else props=$(python3 -c "import json;print(' '.join(sorted(json.load(open('$dir/meta.json'))['checks_run'])))"); fi
